@@ -5,7 +5,7 @@ package props
 // non-nil answer is io.EOF has handed out every row of every input in the order of that input; a
 // fault that bites is answered by an error, not by io.EOF; once a call has answered an error no later
 // call hands out rows. L2: every ReadRows call (rows with the input they came from, result) equals the
-// Lean mirror RdK.MK.readRows (lean/PqModel/MergeKFault.lean, op `io.kway`); the consumer keeps
+// Lean mirror RdK.MK.readRows (lean/PqModel/MergeKFault.lean, op `io.kway`; run mode included); the consumer keeps
 // calling after an error (two more calls), so the retry behaviour is compared too.
 
 import (
@@ -20,7 +20,7 @@ import (
 
 func init() { RegisterSub("C14", "kway", RunC14Kway) }
 
-const c14KwayRule = "sessions of parquet.MergeRowReaders over k in {3..9, 16, 33} scripted sorted sources (rows 0..400 around the 24/48/96/192 buffer sizes, equal-key runs, gaps; a sticky fault after 0, 1, 23..25, 72, 73, n-1, n, n+1 or a random number of rows on 0, 1, 2 or all inputs; error alone or with rows; io.EOF eager or not) x 60 buffer lengths of the consumer in {0,1,2,3,7,16,24,37,64,100,300}; non-trivial = some input fails before it has delivered all its rows"
+const c14KwayRule = "sessions of parquet.MergeRowReaders over k in {3..9, 16, 33} scripted sources (sorted, one case in six with a few rows swapped; rows 0..400 around the 24/48/96/192 buffer sizes, equal-key runs, gaps; a sticky fault after 0, 1, 23..25, 72, 73, n-1, n, n+1 or a random number of rows on 0, 1, 2 or all inputs; error alone or with rows; io.EOF eager or not) x 60 buffer lengths of the consumer in {0,1,2,3,7,16,24,37,64,100,300}; non-trivial = some input fails before it has delivered all its rows"
 
 func c14KwayParseScript(s string, tag int32) *c14Script {
 	p := strings.Split(s, ":")
@@ -197,6 +197,21 @@ func RunC14Kway(ctx *core.Ctx) {
 						srcs[j].rem = srcs[j].rem[:r.Intn(30)]
 					}
 				}
+			}
+			// one case in six: some inputs are not sorted (the run-length gallop of run mode then
+			// works on a window that is not a sorted run; completeness must not depend on the order)
+			if r.Intn(6) == 0 {
+				for _, s := range srcs {
+					if r.Intn(2) == 0 && len(s.rem) > 1 {
+						for t := r.Intn(4) + 1; t > 0; t-- {
+							a, b := r.Intn(len(s.rem)), r.Intn(len(s.rem))
+							s.rem[a], s.rem[b] = s.rem[b], s.rem[a]
+						}
+					}
+				}
+				ctx.Hist("kway.order", "unsorted")
+			} else {
+				ctx.Hist("kway.order", "sorted")
 			}
 			// which inputs may fail: none, one, two, or whatever the scripts say
 			keep := map[int]bool{}
